@@ -227,12 +227,10 @@ fn list(fs: &Fs, sub: bool) -> Result<Vec<Got>, String> {
         let attr = e.attributes().bits();
         let _ = (e.is_dir(), e.is_file(), e.len(), e.created(), e.modified(), e.accessed());
         #[cfg(feature = "has_alloc")]
-        {
-            let n1 = e.file_name();
-            let n2 = e.short_file_name();
-            std::hint::black_box((n1.len(), n2.len()));
-        }
-        out.push(Got { short, long, attr });
+        let names = Some((e.file_name(), e.short_file_name()));
+        #[cfg(not(feature = "has_alloc"))]
+        let names = None;
+        out.push(Got { short, long, attr, names });
     }
     Ok(out)
 }
@@ -316,6 +314,7 @@ impl Worker {
                     }
                     Ok(got) => {
                         let got: Vec<Got> = if sub { got.into_iter().skip(2).collect() } else { got };
+                        let mut lookup_panics: Vec<String> = Vec::new();
                         for g in &got {
                             fnv(&mut h, &g.short);
                             fnv(&mut h, &[g.attr, g.long.is_some() as u8]);
@@ -337,13 +336,20 @@ impl Worker {
                                         if !name.is_empty() && !name.contains('/') && name.len() <= 255 {
                                             let found = match catch_unwind(AssertUnwindSafe(|| dir.open_file(&name).is_ok() || dir.open_dir(&name).is_ok())) {
                                                 Ok(f) => f as u8,
-                                                Err(_) => 2,
+                                                Err(_) => {
+                                                    lookup_panics.push(name.clone());
+                                                    2
+                                                }
                                             };
                                             fnv(&mut h, &[0xF0, found]);
                                         }
                                     }
                                 }
                             }
+                        }
+                        if let Some(n) = lookup_panics.first() {
+                            let p = LAST_PANIC.with(|p| p.borrow().clone());
+                            self.viol(format!("C17/panic/lookup-of-a-listed-name/{}", panic_class(&p)), format!("case {id}: open of the listed name {:?} panicked: {p}", n.chars().take(30).collect::<String>()));
                         }
                         if let Err(why) = judge_listing(&area, &got) {
                             let class: String = why
